@@ -3,6 +3,7 @@ from __future__ import annotations
 
 import contextlib
 import io
+import os
 import sys
 import time
 import traceback
@@ -165,8 +166,22 @@ def run_family(name, tier):
         rec.undecided(name + "#unsupported", ",".join(fam.functions), f"unsupported proxy operation: {e}")
     except PathLimit as e:
         rec.undecided(name + "#paths", ",".join(fam.functions), str(e))
-    except BaseException:
-        rec._rec(name + "#crash", ",".join(fam.functions), "crash", "-", 0.0, traceback.format_exc()[-3000:])
+    except BaseException as e:
+        # Where was the exception raised?  If the innermost frame is code of the repository under verification, the REAL code raised on a
+        # call that the family makes on every run (and that returns on the unchanged tree): the obligations of the family that were still
+        # to come cannot hold, and this is reported as a failed obligation of the family (no failing input: the family's concrete call).
+        # If it was raised in /verif code (harness, proxies), it is a checker fault.
+        tb = traceback.extract_tb(e.__traceback__)
+        repo = os.path.abspath(os.environ.get("VERIF_REPO", "/repo")) + os.sep
+        inner = tb[-1] if tb else None
+        if inner is not None and os.path.abspath(inner.filename).startswith(repo) and not isinstance(e, (KeyboardInterrupt, MemoryError)):
+            where = f"{os.path.relpath(inner.filename, repo)}:{inner.lineno} in {inner.name}"
+            rec.fail(name + "#real-code-raised", ",".join(fam.functions),
+                     f"the code under contract raised {type(e).__name__}: {str(e)[:200]} at {where} while the family was being evaluated "
+                     f"(this call returns normally on the tree the contracts were written for); remaining obligations of the family were not evaluated\n"
+                     + "".join(traceback.format_tb(e.__traceback__)[-4:])[-1500:])
+        else:
+            rec._rec(name + "#crash", ",".join(fam.functions), "crash", "-", 0.0, traceback.format_exc()[-3000:])
     rec.stats["wall_s"] = round(time.time() - t0, 3)
     if not rec.results:
         rec._rec(name + "#empty", ",".join(fam.functions), "crash", "-", 0.0, "family produced zero obligations")
